@@ -553,6 +553,9 @@ class BaseParser:
                     if alias in data:
                         if unprovided(value):
                             value = data[alias]
+                            if field.is_no_input(value, options=options):
+                                # the input of a no-input field is ignored: nothing to conflict with
+                                break
                         else:
                             if data[alias] != value:
                                 context.handle_error(exc.AliasConflictError(item=name, value=data[alias]))
